@@ -94,21 +94,70 @@ impl<'a> Invocation<'a> {
         c.stdout(Stdio::piped());
         c.stderr(Stdio::piped());
         let mut child = c.spawn()?;
-        if let Some(data) = self.stdin {
+        let feeder = self.stdin.map(|data| {
             let mut si = child.stdin.take().unwrap();
             // write from a thread so that a child that never reads cannot deadlock us
-            let h = std::thread::spawn(move || {
+            std::thread::spawn(move || {
                 let _ = si.write_all(&data);
-            });
-            let out = child.wait_with_output()?;
+            })
+        });
+        // drain the pipes from threads, wait with a watchdog: a child that does not finish within
+        // the limit is killed and reported as an I/O error (inconclusive, never a violation)
+        let mut so = child.stdout.take().unwrap();
+        let mut se = child.stderr.take().unwrap();
+        let t_out = std::thread::spawn(move || {
+            let mut v = Vec::new();
+            let _ = std::io::Read::read_to_end(&mut so, &mut v);
+            v
+        });
+        let t_err = std::thread::spawn(move || {
+            let mut v = Vec::new();
+            let _ = std::io::Read::read_to_end(&mut se, &mut v);
+            v
+        });
+        use wait_timeout::ChildExt;
+        let limit = std::time::Duration::from_secs(watchdog_secs());
+        let status = match child.wait_timeout(limit)? {
+            Some(st) => st,
+            None => {
+                let _ = child.kill();
+                let _ = child.wait();
+                let _ = t_out.join();
+                let _ = t_err.join();
+                if let Some(h) = feeder {
+                    let _ = h.join();
+                }
+                return Err(std::io::Error::new(
+                    std::io::ErrorKind::TimedOut,
+                    format!("WATCHDOG: `{} {}` did not finish within {} s and was killed (inconclusive)", self.bin, self.args.join(" "), limit.as_secs()),
+                ));
+            }
+        };
+        let stdout = t_out.join().unwrap_or_default();
+        let stderr = t_err.join().unwrap_or_default();
+        if let Some(h) = feeder {
             let _ = h.join();
-            return Ok(pack(out));
         }
-        let out = child.wait_with_output()?;
-        Ok(pack(out))
+        let st = match (status.code(), status.signal()) {
+            (Some(c), _) => Status::Exit(c),
+            (None, Some(s)) => Status::Signal(s),
+            _ => Status::Signal(0),
+        };
+        if st == Status::Signal(9) {
+            // SIGKILL comes from outside (out-of-memory killer): not a behaviour of the program
+            return Err(std::io::Error::new(std::io::ErrorKind::Other, format!("`{} {}` was killed by SIGKILL (out of memory?): inconclusive", self.bin, self.args.join(" "))));
+        }
+        Ok(CliOut { stdout, stderr, status: st })
     }
 }
 
+/// seconds a single fml process may take (safety net only; every program that reaches a real
+/// binary was first bounded by the reference interpreter's fuel)
+pub fn watchdog_secs() -> u64 {
+    std::env::var("FMLV_WATCHDOG_SECS").ok().and_then(|s| s.parse().ok()).unwrap_or(120)
+}
+
+#[allow(dead_code)]
 fn pack(out: std::process::Output) -> CliOut {
     let status = match (out.status.code(), out.status.signal()) {
         (Some(c), _) => Status::Exit(c),
